@@ -387,6 +387,9 @@ def replay(rec):
     if fam == "poisson_params":
         got = m.poisson_params(incidence(N, hyes))
         bad = [e for j, e in enumerate(hyes) if not close(float(got[j]), lam[e])]
+        hy2 = list(reversed(hyes))
+        got3 = m.poisson_params(incidence(N, hy2))  # same model, second incidence of the same shape
+        bad += [("second-call", e) for j, e in enumerate(hy2) if not close(float(got3[j]), lam[e])]
         return {"kind": "fail" if bad else "ok", "label": "poisson_params differs on %r" % (bad[:3],)}
     per = m.expected_degree(per_node=True)
     bad = []
